@@ -12,6 +12,7 @@ import os
 import re
 
 from .. import core
+from .. import hangaware
 
 METHS = list(range(9))
 ADDRS = [0, 0x1000, 0x1234, 0x3000, 0x3fff, 0x5000, 0x7fffffffffff, 0xffff880000001000, 0xffffffff81000000]
@@ -258,7 +259,7 @@ def forget_verdict(ops, ans, twin_ans):
 
 def run_one(exe, run, ops):
     cf = run.casefile("ax-one.txt", [" ".join(ops)])
-    rc, out, err = core.run_impl(exe, [cf], timeout=60)
+    rc, out, err = core.run_impl(exe, [cf], timeout=25)
     return out.split("\n")[:-1], rc, err
 
 
@@ -277,7 +278,7 @@ def report(run, exe, cases, impl, crashes, bad):
         if not fails(ops):
             run.count("unreproducible-disagreement")
             continue
-        small = core.shrink_list(ops, fails, max_tests=120)
+        small = core.shrink_list(ops, fails, max_tests=120, budget_s=25)
         im, rc, err, tw = both(small)
         b = judge(run, [small], im, tw if tw else None)
         replay = {"engine": "errmsg-ax", "ops": " ".join(small), "implementation": im, "impl_exit": rc,
@@ -317,14 +318,14 @@ def check(run):
                 cases.append(["L8:1000", "O%x:1000:%x:1" % (a, caps)])
     run.cov["engines"]["errmsg-ax"] = {"histories": len(cases)}
     lines = [" ".join(c) for c in cases]
-    impl, crashes = core.run_impl_lines(exe, run.work, lines, timeout=120 if quick else 1200)
+    impl, crashes = hangaware.run_lines(exe, run.work, lines, timeout=120 if quick else 1200)
     for ops, l in zip(cases, impl):
         run.note_case("ax " + " ".join(ops), True)
         for op, t in zip(ops, l.split()):
             run.count("ax-%s-%s" % (op[0], t.split(",")[0]))
     if crashes:
         run.count("ax-abnormal-exit", len(crashes))
-    timpl, _ = core.run_impl_lines(exe, run.work, [" ".join(twin(c)) for c in cases],
+    timpl, _ = hangaware.run_lines(exe, run.work, [" ".join(twin(c)) for c in cases],
                                    timeout=120 if quick else 1200)
     report(run, exe, cases, impl, crashes, judge(run, cases, impl, timpl))
 
@@ -338,8 +339,8 @@ def replay(run, rp):
     if exe is None:
         return
     cases = [rp["ops"].split()]
-    impl, crashes = core.run_impl_lines(exe, run.work, [rp["ops"]], timeout=120)
+    impl, crashes = hangaware.run_lines(exe, run.work, [rp["ops"]], timeout=120)
     print("implementation: " + impl[0])
-    timpl, _ = core.run_impl_lines(exe, run.work, [" ".join(twin(c)) for c in cases], timeout=120)
+    timpl, _ = hangaware.run_lines(exe, run.work, [" ".join(twin(c)) for c in cases], timeout=120)
     print("with cleared context before each call: " + timpl[0])
     report(run, exe, cases, impl, crashes, judge(run, cases, impl, timpl))
